@@ -21,6 +21,8 @@ type unexpectedTokenError struct {
 	tok      Token
 	expected []TokenType
 	context  string
+	// text, when set, replaces the "unexpected X, want Y" message
+	text string
 }
 
 func (e *unexpectedTokenError) Error() string {
@@ -31,6 +33,9 @@ func (e *unexpectedTokenError) Error() string {
 }
 
 func (e *unexpectedTokenError) msg() string {
+	if e.text != "" {
+		return e.text
+	}
 	if len(e.expected) == 1 {
 		return fmt.Sprintf("unexpected %s, want %s", e.tok, e.expected[0])
 	}
